@@ -21,6 +21,7 @@ import (
 	"github.com/btcsuite/btcd/wire/v2"
 	"github.com/btcsuite/btcwallet/walletdb"
 	_ "github.com/btcsuite/btcwallet/walletdb/bdb"
+	"github.com/lightninglabs/neutrino"
 	"github.com/lightninglabs/neutrino/headerfs"
 )
 
@@ -464,6 +465,13 @@ type ImageCheck struct {
 	// constructed (only) on the untouched recovered stores; the one-header
 	// restart check and the follow-up appends then run on the resumed state.
 	Resume func(b headerfs.BlockHeaderStore, f headerfs.FilterHeaderStore) (m *Model, fs []Finding, inconclusive string)
+	// Service, when set, makes the restart the complete client's:
+	// neutrino.NewChainService with this configuration opens the directory (in
+	// the client's own order, with its block manager and the other users of
+	// the database), the oracle then reads the service's own stores, and the
+	// public API must report a best block consistent with them. Unset: the
+	// harness opens the two stores itself (block, then filter).
+	Service *StartSpec
 }
 
 // Run opens the crash image like a restarting client and applies the oracle.
@@ -471,9 +479,32 @@ type ImageCheck struct {
 func (c *ImageCheck) Run() (out []Finding, inconclusive string) {
 	dir, p, before, after, rng, ctx := c.Dir, c.Params, c.Before, c.After, c.Rng, c.Ctx
 	sig := c.Sig
-	db, b, f, err := OpenDir(dir, p)
-	if err != nil {
-		return []Finding{{sig("reopen-fails"), fmt.Sprintf("stores do not open after a %s: %v", ctx, err)}}, ""
+	var (
+		db  walletdb.DB
+		b   headerfs.BlockHeaderStore
+		f   headerfs.FilterHeaderStore
+		svc *neutrino.ChainService
+		err error
+	)
+	if c.Service != nil {
+		var pan string
+		var to bool
+		db, svc, err, pan, to = OpenService(dir, c.Service)
+		switch {
+		case to:
+			return nil, "watchdog: NewChainService on a crash image did not return in 90 s"
+		case pan != "":
+			return []Finding{{sig("reopen-panics"), fmt.Sprintf("NewChainService panics on restart after a %s: %s", ctx, pan)}}, ""
+		case err != nil:
+			return []Finding{{sig("reopen-fails"), fmt.Sprintf("the client does not start (NewChainService, %v) after a %s: %v", c.Service, ctx, err)}}, ""
+		}
+		b, f = svc.BlockHeaders, svc.RegFilterHeaders
+		c.Stats.addService()
+	} else {
+		db, b, f, err = OpenDir(dir, p)
+		if err != nil {
+			return []Finding{{sig("reopen-fails"), fmt.Sprintf("stores do not open after a %s: %v", ctx, err)}}, ""
+		}
 	}
 	defer func() { CloseAll(db, b, f) }()
 	// Block store: equal to the state before or after the primitive.
@@ -583,6 +614,22 @@ func (c *ImageCheck) Run() (out []Finding, inconclusive string) {
 	}
 	if len(out) > 0 {
 		return out, ""
+	}
+	// The public API of the restarted client agrees with its stores: the best
+	// block is the highest block both chains reach.
+	if svc != nil {
+		want := min(len(gotB), len(gotF)) - 1
+		bs, err := svc.BestBlock()
+		switch {
+		case err != nil:
+			return []Finding{{sig("best-block-unreadable"), fmt.Sprintf("%s: BestBlock of the restarted client: %v", ctx, err)}}, ""
+		case int(bs.Height) != want || bs.Hash != gotB[want].BlockHash():
+			return []Finding{{sig("best-block-disagrees"), fmt.Sprintf("%s: the restarted client reports best block %d (%v); its stores hold block tip %d, filter tip %d, block %d is %v",
+				ctx, bs.Height, bs.Hash, len(gotB)-1, len(gotF)-1, want, gotB[want].BlockHash())}}, ""
+		}
+		if h, err := svc.GetBlockHash(0); err != nil || *h != *p.GenesisHash {
+			return []Finding{{sig("genesis-missing"), fmt.Sprintf("%s: GetBlockHash(0) of the restarted client: %v (err=%v), the chain's genesis is %v", ctx, h, err, p.GenesisHash)}}, ""
+		}
 	}
 	if c.Extra != nil {
 		if out = c.Extra(gotB, gotF); len(out) > 0 {
